@@ -8,7 +8,7 @@
 From Coq Require Import List Arith Bool ZArith Reals.
 From ET Require Import Model.Scalar Model.Sparse Model.Basic Model.Oapi Model.Grpc Model.Csv Model.Playground
   Proofs.SparseBase Proofs.RInst Proofs.BasicProofs Proofs.ComputeProofs Proofs.OapiProofs Proofs.GrpcProofs Proofs.CsvProofs
-  Proofs.PlaygroundProofs Proofs.TotalityProofs Proofs.AnalyticTop.
+  Proofs.PlaygroundProofs Proofs.TotalityProofs Proofs.BoundedProofs Proofs.AnalyticTop.
 Import ListNotations.
 
 (** OpenAPI compute: never a panic, whatever the request and the store; the only outcomes are
@@ -100,17 +100,23 @@ Theorem C15_csv_trust_vector_error_iff :
 Proof. exact @read_trust_vector_ok_iff. Qed.
 Print Assumptions C15_csv_trust_vector_error_iff.
 
-(** Playground: every refusal is the 400 page; its own slice accesses are never out of range. *)
+(** Playground: every refusal is the 400 page; no upload makes the handler panic. *)
 Theorem C15_playground_refusals_are_400 :
   forall (S : ScalarOps) fuel eps (u : @upload S) c, prepare u = inl c -> calculate fuel eps u = P400 c.
 Proof. exact @calculate_refusals. Qed.
 Print Assumptions C15_playground_refusals_are_400.
 
-Theorem C15_playground_no_index_panic_partial :
-  forall (S : ScalarOps) fuel eps (u : @upload S),
-    calculate fuel eps u = PCrash ->
-    exists names lt1 pt1 h, prepare u = inr (names, lt1, pt1, h) /\
-      (pipeline fuel eps lt1 pt1 h = PipeCrash \/
-       exists t', pipeline fuel eps lt1 pt1 h = PipeOk t' /\ ~ bounded (vdim pt1) (vents t')).
-Proof. exact @calculate_crash_only_from_pipeline. Qed.
-Print Assumptions C15_playground_no_index_panic_partial.
+Theorem C15_playground_never_panics :
+  forall (S : ScalarOps) fuel eps (u : @upload S), calculate fuel eps u <> PCrash.
+Proof. exact @calculate_never_crashes. Qed.
+Print Assumptions C15_playground_never_panics.
+
+(** Compute and DiscountTrustVector return in-range entries (so no consumer indexing by them
+    can go out of range). *)
+Theorem C15_compute_result_in_range :
+  forall (S : ScalarOps) fuel (c : csm S) p a e o t k st,
+    compute fuel c p a e o = Done t k st ->
+    bounded (vdim p) (vents p) -> (forall t0, o_t0 o = Some t0 -> bounded (vdim t0) (vents t0)) ->
+    vdim t = major c /\ bounded (major c) (vents t).
+Proof. exact @compute_bounded. Qed.
+Print Assumptions C15_compute_result_in_range.
